@@ -43,6 +43,14 @@ Theorem C06_isolated_refuted :
 Proof. exact C06_isolated_refuted_shared. Qed.
 Print Assumptions C06_isolated_refuted.
 
+(* a seeded variant (never in /repo): copying only when a per-task test p says so breaks isolation as soon as p is
+   false for an execution that nevertheless creates a sub-context (dependency_overrides adding a use_cache=False
+   dependency the prepared graph did not have) *)
+Theorem C06_isolated_refuted_conditional_copy : forall p, p 0 = false ->
+  exists vals, run (begin_cond p) init d2_witness = Some vals /\ C06_check d2_witness vals = false.
+Proof. exact FindingsDeps.C06_isolated_refuted_conditional_copy. Qed.
+Print Assumptions C06_isolated_refuted_conditional_copy.
+
 (* non-vacuity: three executions, interleaved, with sub-contexts traversed late *)
 Example C06_three_executions :
   run begin_copy init
